@@ -166,6 +166,12 @@ def _run_obligation(ob, units, astinfo, workdir, tier):
         only = ob.get('contracts')
         if only is not None: contracts = {k: v for k, v in contracts.items() if k in only}
         c_text = splice(h_text, c_text, contracts)
+        aliases0 = dict(re.findall(r'^#define (\w+) (\w+)$', h_text, re.M))
+        for al, short in ob.get('outline', {}).items():
+            import outline
+            try: otext = outline.outline(c_text, aliases0.get(al, al), short)
+            except outline.Break as b: raise Undecided('extraction break (loop outlining): %s' % b)
+            open(os.path.join(wd, '%s_outlined.c' % short), 'w').write(otext)
         open(os.path.join(wd, 'unit.h'), 'w').write(h_text)
         open(os.path.join(wd, 'unit.c'), 'w').write(c_text)
         aliases = dict(re.findall(r'^#define (\w+) (\w+)$', h_text, re.M))
